@@ -2,6 +2,7 @@
 import os
 import json
 import queue
+import random
 import shutil
 import itertools
 from concurrent.futures import ThreadPoolExecutor
@@ -56,14 +57,12 @@ def classify(failure):
     return None
 
 
-def evaluate(ctx, case, reply):
+def assess(case, reply):
+    """the verdict of the reference on the destination as it is NOW: (list of (kind, expected, observed), observations)"""
     dest = case["dest"]
-    inp = rc.case_summary(case)
-    if reply.get("runner_died"):
-        ctx.broken.append(f"runner process died (rc {reply.get('rc')}) on case seed {case['seed']}")
-        return
+    out = []
     if reply.get("error"):
-        ctx.fail("rebuild-raised", inp, "rebuild completes", reply["error"])
+        out.append(("rebuild-raised", "rebuild completes", reply["error"]))
     problems, obs = rc.judge_destination(case, dest)
     by_name = {t["name"]: t for t in case["torrents"]}
     for pr in problems:
@@ -75,24 +74,67 @@ def evaluate(ctx, case, reply):
                 kind = "incomplete:d28-shaped"
             else:
                 kind = "incomplete"
-            ctx.fail(kind, inp, "every non-empty file of the torrent present in the destination and byte-identical",
-                     {"torrent": pr["torrent"], "files": pr["detail"], "counter": reply.get("counter")})
+            out.append((kind, "every non-empty file of the torrent present in the destination and byte-identical",
+                        {"torrent": pr["torrent"], "files": pr["detail"], "counter": reply.get("counter")}))
         elif pr["kind"] == "destination-file-length-differs":
-            ctx.fail(pr["kind"], inp, "every file in the destination has exactly the length the metafile records",
-                     {"torrent": pr["torrent"], "detail": pr["detail"], "counter": reply.get("counter")})
+            out.append((pr["kind"], "every file in the destination has exactly the length the metafile records",
+                        {"torrent": pr["torrent"], "detail": pr["detail"], "counter": reply.get("counter")}))
         else:
-            ctx.fail(pr["kind"], inp, "the rebuilt torrent verifies 100% with the reference verifier",
-                     {"torrent": pr["torrent"], "detail": pr["detail"]})
+            out.append((pr["kind"], "the rebuilt torrent verifies 100% with the reference verifier",
+                        {"torrent": pr["torrent"], "detail": pr["detail"]}))
     bad = rc.check_records(case, reply, dest)
     if bad:
-        ctx.fail("counted-file-absent", inp, "every counted file exists in the destination", bad[:6])
+        out.append(("counted-file-absent", "every counted file exists in the destination", bad[:6]))
     expected = {os.path.join(*e["rel"]) for t in case["torrents"] for e in t["layout"] if e["rel"]}
     extra = [k for k, v in rc.snapshot(dest).items() if v[0] != "d" and k not in expected]
     if extra:
-        ctx.fail("unexpected-file", inp, "only files of the torrents in the destination", extra[:6])
-    out = rc.outside_events(reply, dest)
-    if out:
-        ctx.fail("mutation-outside-destination", inp, "every filesystem mutation under the destination", out[:6])
+        out.append(("unexpected-file", "only files of the torrents in the destination", extra[:6]))
+    ev = rc.outside_events(reply, dest)
+    if ev:
+        out.append(("mutation-outside-destination", "every filesystem mutation under the destination", ev[:6]))
+    return out, obs
+
+
+def cut_files(case):
+    """what an interrupted copy leaves: 1-2 rebuilt files of the destination cut to 0 / 1 / half / length-1 bytes"""
+    rng = random.Random(f"resume:{case['seed']}")
+    ents = {}
+    for t in case["torrents"]:
+        for e in t["layout"]:
+            if e["rel"] and e["length"] > 0 and os.path.isfile(os.path.join(case["dest"], *e["rel"])):
+                ents[e["rel"]] = e
+    cuts = []
+    for rel in rng.sample(sorted(ents), min(len(ents), rng.choice([1, 2, 2]))):
+        n = ents[rel]["length"]
+        how, m = rng.choice([(h, m) for h, m in (("0 bytes", 0), ("1 byte", 1), ("half", n // 2), ("length-1", n - 1)) if m < n])
+        os.truncate(os.path.join(case["dest"], *rel), m)
+        cuts.append({"file": "/".join(rel), "recorded_length": n, "cut_to": m, "how": how})
+    return cuts
+
+
+def evaluate(ctx, case, res):
+    inp = rc.case_summary(case)
+    reply = res["reply"]
+    if reply.get("runner_died") or (res.get("reply2") or {}).get("runner_died"):
+        ctx.broken.append(f"runner process died (rc {reply.get('rc')}) on case seed {case['seed']}")
+        return
+    if case["profile"] == "resume":
+        # run 1 into the empty destination was judged before the cut; now the destination after run 2
+        verdict, obs = res["verdict1"]
+        for kind, expected, observed in verdict:
+            ctx.fail(kind, inp, expected, observed)
+        inp2 = dict(inp, sequence=["rebuild into the empty destination", {"cut (as an interrupted copy leaves them)": res["cuts"]},
+                                   "rebuild again with the same intact sources"])
+        verdict2, _ = assess(case, res["reply2"])
+        for kind, expected, observed in verdict2:
+            ctx.fail("resume:" + kind, inp2, expected + " after the second rebuild", observed)
+        for c in res["cuts"]:
+            case["classes"].add("resume: rebuilt file cut to " + c["how"])
+        case["classes"].add(f"resume: {len(res['cuts'])} file{'s' if len(res['cuts']) != 1 else ''} cut")
+    else:
+        verdict, obs = assess(case, reply)
+        for kind, expected, observed in verdict:
+            ctx.fail(kind, inp, expected, observed)
     for o in obs:
         ctx.extra["observations"][o] = ctx.extra["observations"].get(o, 0) + 1
     copied_something = any(e["rel"] and e["length"] for t in case["torrents"] for e in t["layout"])
@@ -100,7 +142,16 @@ def evaluate(ctx, case, reply):
              sample=inp if case.get("index") == 3 else None)
 
 
-def run_case(case, runners, home):
+GENERATOR_PROFILE = {"resume": "c13"}
+
+
+def gen(seed, profile, workdir, force_mode=None):
+    case = rc.gen_case(seed, GENERATOR_PROFILE.get(profile, profile), workdir, force_mode=force_mode)
+    case["profile"] = profile
+    return case
+
+
+def run_once(case, runners, home):
     if case["mode"] == "cli-proc":
         return rc.run_cli_process(rc.job_of(case), home)
     r = runners.get()
@@ -110,11 +161,22 @@ def run_case(case, runners, home):
         runners.put(r)
 
 
+def run_case(case, runners, home):
+    res = {"reply": run_once(case, runners, home)}
+    if case["profile"] == "resume" and not res["reply"].get("runner_died"):
+        res["verdict1"] = assess(case, res["reply"])
+        res["cuts"] = cut_files(case)
+        res["reply2"] = run_once(case, runners, home)
+    return res
+
+
 def e2e(ctx):
     quick = ctx.tier == "quick"
     plan = [("c13", None)] * (64 if quick else 1100) + [("d27", None)] * (8 if quick else 80) + [("d28", None)] * (6 if quick else 60) + \
-        [("samename", None)] * (4 if quick else 40)
-    plan = [(p, "cli-proc" if p == "c13" and i % (21 if quick else 40) == 5 else None) for i, (p, _) in enumerate(plan)]
+        [("samename", None)] * (4 if quick else 40) + [("resume", None)] * (14 if quick else 200) + \
+        [("dotted", None)] * (8 if quick else 80) + [("boundary", None)] * (6 if quick else 80)
+    plan = [(p, "cli-proc" if (p == "c13" and i % (21 if quick else 40) == 5) or (p == "resume" and i % (5 if quick else 10) == 2) else None)
+            for i, (p, _) in enumerate(plan)]
     seeds = [ctx.rng.getrandbits(48) for _ in plan]
     ctx.extra.setdefault("observations", {})
     with core.Scratch("vc13e_") as tmp:
@@ -129,7 +191,7 @@ def e2e(ctx):
                     cases = []
                     for i in range(c0, min(c0 + 24, len(plan))):
                         try:
-                            c = rc.gen_case(seeds[i], plan[i][0], os.path.join(tmp, f"c{i}"), force_mode=plan[i][1])
+                            c = gen(seeds[i], plan[i][0], os.path.join(tmp, f"c{i}"), force_mode=plan[i][1])
                         except Exception as e:  # noqa
                             ctx.broken.append(f"case generation failed (seed {seeds[i]}, {plan[i][0]}): {type(e).__name__}: {e}")
                             continue
@@ -162,7 +224,7 @@ def run(ctx, model_ok):
 
 
 def replay(ctx, data):
-    """regenerates the case from its seed, runs the rebuild and prints the reference verdict"""
+    """regenerates the case from its seed, runs the rebuild (for a resume case: rebuild, cut, rebuild) and prints the reference verdict"""
     inp = data.get("input") or {}
     print(json.dumps({k: data.get(k) for k in ("kind", "expected", "observed")}, indent=1, ensure_ascii=False)[:3000])
     if "case_seed" not in inp:
@@ -170,17 +232,23 @@ def replay(ctx, data):
         return 0
     with core.Scratch("vc13r_") as tmp:
         os.environ["HOME"] = tmp
-        case = rc.gen_case(inp["case_seed"], inp["profile"], os.path.join(tmp, "c"),
-                           force_mode="cli-proc" if inp.get("mode") == "cli-proc" else None)
+        case = gen(inp["case_seed"], inp["profile"], os.path.join(tmp, "c"),
+                   force_mode="cli-proc" if inp.get("mode") == "cli-proc" else None)
+        q = queue.Queue()
         r = rc.Runner(tmp)
+        q.put(r)
         try:
-            rep = rc.run_cli_process(rc.job_of(case), tmp) if case["mode"] == "cli-proc" else r.run(rc.job_of(case))
+            res = run_case(case, q, tmp)
         finally:
             r.close()
-        problems, _ = rc.judge_destination(case, case["dest"])
+        rep = res.get("reply2") or res["reply"]
+        verdict = list(res.get("verdict1", ([], []))[0]) + [(("resume:" if "reply2" in res else "") + k, e, o)
+                                                              for k, e, o in assess(case, rep)[0]]
         print("implementation:", rep.get("impl"), "counter:", rep.get("counter"), "error:", rep.get("error"))
         print(json.dumps(rc.case_summary(case), indent=1, ensure_ascii=False)[:4000])
-        for pr in problems:
-            print("PROBLEM", pr["kind"], pr["torrent"], pr["detail"])
-        print("verdict:", "property violated on this input" if problems or rep.get("error") else "holds on this input")
-        return 1 if problems or rep.get("error") else 0
+        if "cuts" in res:
+            print("cut between the two rebuilds:", json.dumps(res["cuts"], ensure_ascii=False))
+        for kind, _expected, observed in verdict:
+            print("PROBLEM", kind, json.dumps(core.jsonable(observed), ensure_ascii=False)[:600])
+        print("verdict:", "property violated on this input" if verdict else "holds on this input")
+        return 1 if verdict else 0
